@@ -236,6 +236,7 @@ impl Runner {
             }
             Ev::PqBinding { user, slot } => w.ev_pq_binding(*user, *slot),
             Ev::RaiseTracing => w.ev_raise_tracing(),
+            Ev::FreshInstances { user, enc, kpol, epol } => w.ev_fresh_instances(*user, *enc, kpol, epol),
             Ev::IdCounterJump { to, back } => w.ev_id_counter_jump(*to, *back),
             Ev::EncryptOtherThread { enc, pol, n } => w.ev_encrypt_other_thread(*enc, pol, *n),
         }
